@@ -25,3 +25,11 @@ claim("C03", "exploration",
       "and only on machines that are not strongly connected).",
       "Machines up to 4x4; tie-breaks beyond the deviation bound follow one fixed fair stream; placements on live chips.",
       "DESIGN.md section 4, C03")
+claim("C12", "model_checking",
+      "Target sets within edit distance 2-3 of empty and of full at every level of the region hierarchy (4x4, 16x16, 64x64 blocks, "
+      "whole machine), blocks straddling level boundaries, neighbouring blocks with different core sets and second-core overlays are "
+      "compressed by the real code and decoded by an independent region-word decoder (exact cover, nothing twice, strictly increasing); "
+      "every chip x level for the single-chip region word; explicit-state BFS over all insertion orders of the last <=6-7 (chip, core) "
+      "pairs on the real RegionCoreTree from pre-filled near-full states, invariant checked in every state.",
+      "Region-word meaning as documented in the module docstring; the 2^1.2M subsets cannot be enumerated - coverage is the stated neighbourhoods.",
+      "DESIGN.md section 4, C12")
